@@ -37,6 +37,8 @@ def leaf(kind, ids, rng=None, text_ws=False, inline_only=False):
             r["sub"] = True
         if text_ws and rng is not None and rng.random() < 0.2:
             r["s"] = rng.choice(["\n", "\r\n", "\n\n", " ", "\r"]) + r["s"]     # raw markup may start with a line break of its own
+        elif text_ws and rng is not None and rng.random() < 0.15:
+            r["s"] = rng.choice(["<!-- %s -->", "<!--%s-->", "<!--[if IE]>%s<![endif]-->", "<?pi %s?>", "<![CDATA[%s]]>"]) % r["s"]   # a comment is raw markup like any other
         return r
     if kind == "obj":
         r = {"k": "obj", "s": ids.next("o")}
@@ -81,6 +83,10 @@ def node_of_kind(kind, ids, rng, children=()):
 
 def _attrs(rng, ids):
     r = rng.random()
+    if r > 0.92:
+        # attributes that say something about white space / display to a BROWSER say nothing to the writer
+        return [["style", {"t": "str", "s": rng.choice(["white-space: pre-wrap;", "white-space:pre", "display: inline;", "display:block; white-space: nowrap"])}],
+                ["id", {"t": "str", "s": ids.next("i")}], ["contenteditable", {"t": "true"}]][: rng.randint(1, 3)]
     if r < 0.3:
         return [["id", {"t": "str", "s": ids.next("i")}]]
     if r < 0.4:
